@@ -107,6 +107,7 @@ class FnSpec:
         self.subst = []         # (regex, replacement, reason) — declared, logged textual adaptation (R11/R12 family)
         self.impl_match = None
         self.may_fail = []
+        self.concrete_ret = None   # R14: `-> impl '_ + Traits` -> the concrete type the body constructs
         self.opens = None
         self.returns = None
 
@@ -257,7 +258,7 @@ def parse_contract_file(path, unit=None, seen=None):
             continue
         st = ln.strip()
         m = re.match(r'^(ret|requires|ensures|decreases|loop|invariant|invariant_except_break|loop_ensures|at_start|at_end|after_loop|before_loop|loop_body_start|loop_body_end|at|attr|tags|as_inherent|'
-                     r'external_body|no_body|loop_hint|subst|impl_match|returns|opens|debug_assert_may_fail)\b\s*(.*)$', st)
+                     r'external_body|no_body|loop_hint|subst|impl_match|returns|opens|debug_assert_may_fail|concrete_ret)\b\s*(.*)$', st)
         indent = len(ln) - len(ln.lstrip())
         if m and indent <= 4 or (m and m.group(1) in ('invariant', 'invariant_except_break', 'loop_ensures', 'decreases') and indent <= 8 and cur_clause is None):
             kw, rest = m.group(1), m.group(2)
@@ -338,6 +339,8 @@ def parse_contract_file(path, unit=None, seen=None):
                 cur_fn.impl_match = rest.strip()
             elif kw == 'debug_assert_may_fail':
                 cur_fn.may_fail.append(rest.strip().strip('"'))
+            elif kw == 'concrete_ret':
+                cur_fn.concrete_ret = rest.strip()
             elif kw == 'subst':
                 mm = re.match(r'^/((?:[^/\\]|\\.)*)/\s+/((?:[^/\\]|\\.)*)/\s+(.*)$', rest)
                 if not mm:
@@ -736,6 +739,16 @@ class FnAsm:
         sig = s[it.header_start:it.body_open] if has_body else s[it.header_start:it.end - 1]
         sig = publicize_header(sig)
         before, ret, where = split_signature(sig)
+        if sp and sp.concrete_ret:
+            # R14: an opaque return type `impl '_ + Traits` is replaced by the concrete type T<'_> when the whole body is
+            # the constructor expression `T(...)` / `T {...}` (return-position impl Trait only hides the type from callers)
+            tn = re.match(r'^\w+', sp.concrete_ret).group(0)
+            bt = norm_ws(s[it.body_open + 1:it.body_close]) if has_body else ''
+            if not (ret or '').startswith('impl') or not re.match(r'^%s\s*[({]' % re.escape(tn), bt) or not bt.endswith((')', '}')):
+                raise Undecided('%s: concrete_ret %s: return type is not `impl …` or the body is not a single %s constructor'
+                                % (self.qual, sp.concrete_ret, tn))
+            self.log.append('R14: return type %s -> %s' % (norm_ws(ret), sp.concrete_ret))
+            ret = sp.concrete_ret
         if in_trait_impl or in_trait_decl:
             before = re.sub(r'^\s*pub\s+', '', before)
         else:
@@ -779,6 +792,8 @@ class FnAsm:
             segs.append(('#[verifier::external_body]\n', {'kind': 'assumption', 'fn': self.qual,
                                                         'text': 'external_body', 'tags': []}))
         segs.append((head + '\n', {'kind': 'signature', 'fn': self.qual, 'text': norm_ws(head), 'tags': []}))
+        if getattr(self, 'extra_where', None):
+            where = (where.rstrip().rstrip(',') + ', ' if where else 'where ') + ', '.join(self.extra_where)
         if where:
             w = where.rstrip()
             if not w.endswith(','):
@@ -1233,9 +1248,10 @@ def assemble(unit, src):
             emit_mod(sub, p)
             out.emit('} // mod %s\n\n' % name)
 
-    def emit_fn(f, fs, qual, in_trait_impl=False, in_trait_decl=False, extra_generics=None, assoc=None):
+    def emit_fn(f, fs, qual, in_trait_impl=False, in_trait_decl=False, extra_generics=None, assoc=None, extra_where=None):
         asm = FnAsm(f, fs, qual)
         asm.extra_generics = extra_generics or []
+        asm.extra_where = extra_where or []
         start = out.line
         for text, meta in asm.build(in_trait_impl, in_trait_decl):
             if assoc and meta is not None and meta.get('kind') in ('signature', 'body'):
@@ -1344,7 +1360,15 @@ def assemble(unit, src):
                             continue
                         nm = re.match(r"^(?:const\s+)?('?\w+)", prm).group(1)
                         (keep_g if re.search(r'(?<![\w])%s\b' % re.escape(nm), ty) else move_g).append(prm)
-                ih = 'impl%s %s %s' % (('<' + ', '.join(keep_g) + '>') if keep_g else '', ty, wh)
+                # where-predicates that mention a moved generic move to the fn as well
+                moved_names = [re.match(r"^(?:const\s+)?('?\w+)", prm).group(1) for prm in move_g]
+                keep_w, move_w = [], []
+                for pred in split_top(re.sub(r'^\s*where\b', '', wh or ''), ','):
+                    pred = pred.strip()
+                    if pred:
+                        (move_w if any(re.search(r'(?<![\w])%s\b' % re.escape(nm), pred) for nm in moved_names) else keep_w).append(pred)
+                ih = 'impl%s %s %s' % (('<' + ', '.join(keep_g) + '>') if keep_g else '', ty,
+                                       ('where ' + ', '.join(keep_w)) if keep_w else '')
                 out.emit(norm_ws(ih) + ' {\n')
                 assoc = {}
                 for c in it.children:
@@ -1354,7 +1378,7 @@ def assemble(unit, src):
                             assoc[m_.group(1)] = m_.group(2)
                 for f, fs in inherent_moves:
                     qual = '%s::<%s for %s>::%s' % (mp, tr, ty, f.name)
-                    emit_fn(f, fs, qual, extra_generics=move_g, assoc=assoc)
+                    emit_fn(f, fs, qual, extra_generics=move_g, assoc=assoc, extra_where=move_w)
                 out.emit('}\n')
             return
         raise Undecided('cannot emit item kind %s' % it.kind)
